@@ -69,7 +69,8 @@ def main():
     t0 = time.time()
     from pyvc.vc import Engine, discharge
     from contracts.index import MODULES, PROPERTIES
-    info = PROPERTIES[prop]
+    from contracts.index import A_PY, A_REAL, A_NUMPY, A_UNITS
+    info = PROPERTIES.get(prop) or dict(level='proof', trusted=[A_PY, A_REAL, A_NUMPY, A_UNITS], assumptions=[A_PY, A_REAL, A_NUMPY, A_UNITS])
     os.makedirs(os.path.join(VERIF, 'evidence'), exist_ok=True)
     os.makedirs(os.path.join(VERIF, 'replays'), exist_ok=True)
     E = Engine(repo_path(), seed=seed, tier=tier)
@@ -200,7 +201,7 @@ def main():
         ev['coverage']['distinct_nontrivial'] = sum(b.get('distinct_nontrivial', 0) for b in bounded)
         ev['coverage']['rule'] = '; '.join(b.get('rule', '') for b in bounded)
     json.dump(ev, open(os.path.join(VERIF, 'evidence', f'{prop}.json'), 'w'), indent=1, default=repr)
-    for l in known_lines:
+    for l in sorted(set(known_lines)):
         print(l)
     for o in undecided:
         print(f'UNDECIDED property={prop} obligation={o.fullname} reason={o.reason}')
@@ -211,7 +212,7 @@ def main():
     for l in lines:
         print(l)
     print(f'{prop} {tier}: {n_obl} obligations, {n_dis} discharged, {len(violations)} violated, {len(undecided)} undecided, '
-          f'{len(errs) + len(errors)} errors, {len(known_lines)} known; bounded evaluations {sum(b.get("evaluations", 0) for b in bounded)}; {wall:.1f}s')
+          f'{len(errs) + len(errors)} errors, {len(set(known_lines))} known findings; bounded evaluations {sum(b.get("evaluations", 0) for b in bounded)}; {wall:.1f}s')
     if lines:
         sys.exit(EXIT_VIOLATION)
     if errs or errors or n_obl == 0:
